@@ -300,6 +300,33 @@ impl Builtins {
         Ok(())
     }
 
+    /// True if the value is a function or a module, or holds one.
+    fn holds_callable(val: &Value) -> bool {
+        match val {
+            F(_) | Value::M(_) => true,
+            C(List(items, _)) => items.iter().any(|item| Self::holds_callable(item)),
+            C(Tuple(flds, _)) => flds.iter().any(|(_, v)| Self::holds_callable(v)),
+            _ => false,
+        }
+    }
+
+    /// The data formats have no way to write a function or a module. They
+    /// are lowered to NULL on the way to the converter, so it has to be
+    /// refused here or the output silently says null where the value had one.
+    fn check_representable(
+        c_type: &str,
+        holds_callable: bool,
+        pos: &Position,
+    ) -> Result<(), Error> {
+        if holds_callable && ["json", "yaml", "yamlmulti", "toml"].contains(&c_type) {
+            return Err(Error::new(
+                format!("Functions and modules can not be converted to {}", c_type).into(),
+                pos.clone(),
+            ));
+        }
+        Ok(())
+    }
+
     fn out<P, O, E>(
         &self,
         path: Option<P>,
@@ -334,10 +361,12 @@ impl Builtins {
         };
         let val = stack.pop();
         if let Some((val, val_pos)) = val {
+            let holds_callable = Self::holds_callable(val.as_ref());
             let val = val.into();
             let c_type = stack.pop();
             if let Some((c_type_val, c_type_pos)) = c_type {
                 if let &Value::P(Primitive::Str(ref c_type)) = c_type_val.as_ref() {
+                    Self::check_representable(c_type, holds_callable, &pos)?;
                     let stdout = env.borrow().stdout();
                     match env.borrow().converter_registry.get_converter(c_type) { Some(c) => {
                         // Convert into a buffer first. A value that can not be
@@ -384,9 +413,11 @@ impl Builtins {
     {
         let val = stack.pop();
         if let Some((val, val_pos)) = val {
+            let holds_callable = Self::holds_callable(val.as_ref());
             let val = val.into();
             if let Some((c_type_val, c_typ_pos)) = stack.pop() {
                 if let &Value::P(Primitive::Str(ref c_type)) = c_type_val.as_ref() {
+                    Self::check_representable(c_type, holds_callable, &pos)?;
                     if let Some(c) = env.borrow().converter_registry.get_converter(c_type) {
                         let mut buf: Vec<u8> = Vec::new();
                         match c.convert(Rc::new(val), &mut buf) {
